@@ -19,6 +19,16 @@ pub struct PathSpec {
     pub val: Val,
     /// redundant components inserted in front of the final component by the renderer: (position class, kind)
     pub respell: Option<u8>,
+    /// directory form: the written path ends in `/` (0), `/.` (1) or `/zz/..` (2) -- three spellings of one name
+    pub dir_suffix: Option<u8>,
+}
+
+pub fn dir_suffix_text(k: u8) -> &'static str {
+    match k % 3 {
+        0 => "/",
+        1 => "/.",
+        _ => "/zz/..",
+    }
 }
 
 #[derive(Clone, Debug, Serialize)]
@@ -100,6 +110,8 @@ pub type Scope = BTreeMap<String, String>;
 pub fn canon(p: &str) -> String {
     if crate::paths::is_tame(p) {
         crate::paths::tame_canon(p)
+    } else if crate::paths::is_tame_dir(p) {
+        format!("{}/", crate::paths::tame_canon(p))
     } else {
         p.to_string()
     }
@@ -107,7 +119,7 @@ pub fn canon(p: &str) -> String {
 
 /// Does the loaded name denote what the manifest said?
 pub fn same_name(expected: &str, got: &str) -> bool {
-    expected == got || (!crate::paths::is_tame(expected) && crate::paths::resolve(expected) == crate::paths::resolve(got))
+    expected == got || (!crate::paths::is_tame(expected) && !crate::paths::is_tame_dir(expected) && crate::paths::resolve(expected) == crate::paths::resolve(got))
 }
 
 fn eval_in_scope(v: &Val, scope: &Scope) -> String {
@@ -237,7 +249,7 @@ impl<'a> Evaluator<'a> {
                 Stmt::Default(paths) => {
                     for p in paths {
                         self.note_reads(&p.val, &[]);
-                        let s = canon(&eval_in_scope(&p.val, scope));
+                        let s = canon(&format!("{}{}", eval_in_scope(&p.val, scope), p.dir_suffix.map(dir_suffix_text).unwrap_or("")));
                         self.out.defaults.push(s);
                     }
                 }
@@ -266,7 +278,7 @@ impl<'a> Evaluator<'a> {
                     for sec in &b.ins {
                         for p in sec {
                             self.note_reads(&p.val, &b.binds);
-                            let raw = eval_path(&p.val, &b.binds, scope);
+                            let raw = format!("{}{}", eval_path(&p.val, &b.binds, scope), p.dir_suffix.map(dir_suffix_text).unwrap_or(""));
                             ins.push(canon(&raw));
                             ins_raw.push(raw);
                         }
@@ -274,13 +286,13 @@ impl<'a> Evaluator<'a> {
                     let mut outs_raw = vec![];
                     for p in &b.outs {
                         self.note_reads(&p.val, &b.binds);
-                        outs_raw.push(canon(&eval_path(&p.val, &b.binds, scope)));
+                        outs_raw.push(canon(&format!("{}{}", eval_path(&p.val, &b.binds, scope), p.dir_suffix.map(dir_suffix_text).unwrap_or(""))));
                     }
                     // outputs repeated inside one statement count once (first occurrence), with a warning
                     let mut outs: Vec<String> = vec![];
                     let mut nexp = 0;
                     for (i, o) in outs_raw.iter().enumerate() {
-                        if outs.iter().any(|p: &String| crate::paths::resolve(p) == crate::paths::resolve(o)) {
+                        if outs.iter().any(|p: &String| crate::paths::node_key(p) == crate::paths::node_key(o)) {
                             self.warnings.push(o.clone());
                             continue;
                         }
@@ -317,13 +329,13 @@ impl<'a> Evaluator<'a> {
                         _ => return Err(XErr::RspMismatch),
                     };
                     for o in &outs {
-                        let key = format!("{:?}", crate::paths::resolve(o));
+                        let key = crate::paths::node_key(o);
                         if let Some(prev) = self.producers.get(&key) {
                             return Err(XErr::DupOutput(o.clone(), prev.clone(), loc));
                         }
                     }
                     for o in &outs {
-                        self.producers.insert(format!("{:?}", crate::paths::resolve(o)), loc.clone());
+                        self.producers.insert(crate::paths::node_key(o), loc.clone());
                     }
                     let step = XStep {
                         file: f.name.clone(),
@@ -340,7 +352,7 @@ impl<'a> Evaluator<'a> {
                         showincludes,
                         hide_success: lookup("hide_success").is_some(),
                         hide_progress: lookup("hide_progress").is_some(),
-                        wild: outs_raw.iter().chain(ins_raw.iter()).any(|p| !crate::paths::is_tame(p)),
+                        wild: outs_raw.iter().chain(ins_raw.iter()).any(|p| !crate::paths::is_tame(p) && !crate::paths::is_tame_dir(p)),
                     };
                     self.out.steps.push(step);
                 }
@@ -475,7 +487,12 @@ impl<'t, 'a> Renderer<'t, 'a> {
         o
     }
     fn path(&mut self, p: &PathSpec) -> String {
-        let body = self.val(&p.val, true);
+        let mut body = self.val(&p.val, true);
+        if let Some(k) = p.dir_suffix {
+            self.features.push("directory-form-path");
+            body.push_str(dir_suffix_text(k));
+            return body;
+        }
         match p.respell {
             None => body,
             Some(k) => {
